@@ -183,6 +183,62 @@ class PartitionBodyAfterFlip(PartitionBody):
         return out
 
 
+def is_seed_loop(l):
+    import ast as _ast
+    return isinstance(l, _ast.For) and isinstance(l.iter, _ast.Name) and l.iter.id == 'committed'
+
+
+class SeedBody(KafkaBase):
+    """One iteration of `for tp in committed:` at the start of poll_kafka: the position of the partition becomes exactly what the
+    broker reports as committed, including the sentinel -1001 ("nothing committed") that the per-partition body resolves with
+    the configured reset rule."""
+    name = 'FromKafkaBatched.poll_kafka/<seeding positions from the committed offsets>'
+    props = ['C09']
+    assumptions = ('confluent_kafka: committed() returns one TopicPartition per requested partition whose offset is the committed '
+                   'offset or -1001 (trusted)',)
+
+    def unit(self, I, index):
+        rel, fnode = index.function(self.qual)
+        loop = locate_loop(fnode, is_seed_loop)
+
+        def run(I):
+            st = State()
+            I.st = st
+            self.init_ghost(st)
+            g = st.ghost
+            n, p, off = z3.Int('npartitions'), z3.Int('partition'), z3.Int('committed_offset')
+            st.assume(z3.And(n >= 1, p >= 0, p < n, off >= -1001))
+            P0 = z3.Const('positions0', z3.SeqSort(z3.IntSort()))
+            st.assume(z3.Length(P0) == n)
+            pos = z3.Int('pos0')
+            Pp, Ps = z3.Const('Pp', P0.sort()), z3.Const('Ps', P0.sort())
+            st.assume(P0 == z3.Concat(Pp, z3.Unit(pos), Ps))
+            st.assume(z3.Length(Pp) == p)
+            g['_index_hints'] = [(P0, p, Pp, pos, Ps)]
+            g['Pp'], g['Ps'] = VSeq(Pp, K_INT), VSeq(Ps, K_INT)
+            g['committed_offset'] = VInt(off)
+            positions = st.new_list(P0, K_INT)
+            selfv = st.new_obj('FromKafkaBatched', {'positions': positions, 'npartitions': VInt(n)})
+            tp = st.new_obj('TopicPartition', {'partition': VInt(p), 'offset': VInt(off), 'topic': VElem(z3.Const('topic', sym.Elem))})
+            loc = {'self': selfv, 'tp': tp, 'ck': VBuiltin('ck')}
+            self.finish(I, dict(loc))
+            fr = Frame(self.qual, loc)
+            fr.loop_ids = {}
+            from pyvc.state import ContinueSignal
+            try:
+                I.exec_block(loop.body, fr)
+            except ContinueSignal:
+                pass
+            return NONE, fr
+        return run
+
+    def clauses(self):
+        return [Clause('C09.position_starts_at_what_the_broker_reports_as_committed', ['C09'], when='return',
+                       text='list(self.positions) == Pp + [committed_offset] + Ps',
+                       note='-1001 included: it is what makes the configured auto.offset.reset apply to a group without a commit'),
+                Clause('C09.seeding_never_fails', ['C09'], when='raise', text='False')]
+
+
 class CommitFn(KafkaBase):
     name = 'FromKafkaBatched.poll_kafka/commit'
     props = ['C09', 'C04']
@@ -328,7 +384,7 @@ class CheckpointEmit(KafkaBase):
         ]
 
 
-ALL = [PartitionBody, PartitionBodyAfterFlip, CommitFn, CheckpointEmit]
+ALL = [PartitionBody, PartitionBodyAfterFlip, SeedBody, CommitFn, CheckpointEmit]
 
 
 # --------------------------------------------------------------------------- FromKafkaBatched.__init__
@@ -503,3 +559,68 @@ class GetMessageBatch(KafkaBase):
 
 
 ALL += [KafkaInit, KafkaInitNoReset, GetMessageBatch]
+
+
+# --------------------------------------------------------------------------- from_kafka_batched(...): the public constructor function
+from .c_df_wiring import Wire as _Wire
+from pyvc.sym import VFunc as _VFunc
+
+
+class KafkaApi(_Wire):
+    """`Stream.from_kafka_batched(topic, consumer_params, ...)`: every documented parameter reaches the `FromKafkaBatched` node (among
+    them `max_batch_size`, the bound of C09), and what the caller gets is that node followed by the batch reader."""
+    file = SRC
+    files = [SRC, 'streamz/core.py']
+    cls = 'sources'
+    method = 'from_kafka_batched'
+    props = ['C09']
+    params = ('topic', 'consumer_params', 'poll_interval', 'npartitions', 'refresh_partitions', 'max_batch_size', 'keys', 'engine')
+    name = 'from_kafka_batched[dask=False]'
+    expect = None
+
+    def __init__(self):
+        _Wire.__init__(self)
+        self.qual = 'from_kafka_batched'
+        self.name = 'from_kafka_batched[dask=False]'
+
+    def build(self, I):
+        st = State()
+        I.st = st
+        args = {p: VElem(z3.Const('arg_' + p, sym.Elem)) for p in self.params}
+        args['dask'] = sym.VBool(z3.BoolVal(False))
+        args['start'] = sym.VBool(z3.Bool('arg_start'))
+        self.pre_args = dict(args)
+        self.pre_state = st.snapshot()
+        st.ghost['_pre'] = (self.pre_state, self.pre_args)
+        I.contract_pre = self.pre_state
+        I.contract_pre_frame = self.pre_frame(I)
+        return None, [], dict(args)
+
+    def globals(self):
+        d = _Wire.globals(self)
+        d.update({'get_message_batch': VBuiltin('get_message_batch'), 'get_message_batch_cudf': VBuiltin('get_message_batch_cudf')})
+        return d
+
+    def unit(self, I, index):
+        rel, node = index.function('from_kafka_batched')
+        self.qual_resolved = 'from_kafka_batched'
+        f = _VFunc('from_kafka_batched', node, bound=None)
+
+        def run(I):
+            recv, args, kwargs = self.build(I)
+            frames = []
+            v = I.run_function(f, [], kwargs, frame_out=frames)
+            return v, frames[0]
+        return run
+
+    def clauses(self):
+        src = ("call('FromKafkaBatched', topic, consumer_params, poll_interval=poll_interval, npartitions=npartitions, "
+               "refresh_partitions=refresh_partitions, max_batch_size=max_batch_size, keys=keys, engine=engine, **kwargs)")
+        return [Clause('C09.every_parameter_reaches_the_batched_source', ['C09'], when='return',
+                       text="result == (call('.starmap', %s, glob('get_message_batch_cudf')) if engine == 'cudf' "
+                            "else call('.starmap', %s, glob('get_message_batch')))" % (src, src),
+                       note='max_batch_size is the documented bound on the size of a batch'),
+                Clause('C09.construction_does_not_fail', ['C09'], when='raise', text='False')]
+
+
+ALL += [KafkaApi]
